@@ -57,6 +57,19 @@ def norm(log):
     return E_RE.sub(r"\1E", log)
 
 
+def norm_ev(log):
+    """event logs of a bare parser: like norm(), and the character data reported immediately before an error is dropped
+    (how much of the text in front of an ill-formed token has already been reported depends on where the reads were cut;
+    no stanza is delivered from it, so it is outside the property)"""
+    toks = norm(log).split(" ")
+    if toks and toks[-1] == "E":
+        k = len(toks) - 1
+        while k > 0 and (toks[k - 1].startswith("c(") or toks[k - 1] == "/"):
+            k -= 1
+        toks = toks[:k] + ["E"]
+    return " ".join(toks)
+
+
 def split_results(line):
     if line is None:
         return None
@@ -695,7 +708,7 @@ class Evaluator:
                 if W != exp:
                     chk.fail(j.case("-"), "fed in one piece, libstrophe reports %s ; libxml2 + tree builder: %s" % (W[:300], exp[:300]),
                              extra={"cls": "differs-from-libxml2" if w_ok else "rejects-what-libxml2-accepts"})
-                if norm(DW) != norm(X):
+                if norm_ev(DW) != norm_ev(X):
                     chk.fail(j.case("-"), "ASSUMPTION: plain expat (deferral off) reports %s ; libxml2 %s" % (DW[:300], X[:300]),
                              extra={"cls": "assumption-expat-vs-libxml2"})
         # (d) clean slate: run with restarts = runs of the pieces on new parsers
@@ -712,10 +725,10 @@ class Evaluator:
             built = None
             if i == 0 or Si is not SW or Li is not W:
                 built = pybuild(Si)
-                if built != Li:
+                if norm(built) != norm(Li):      # (the driver abbreviates a log equal to the reference up to the feed number of E)
                     chk.fail(j.case(part), "libstrophe delivered %s ; expat delivered %s, i.e. %s" % (Li[:300], Si[:200], built[:300]),
                              extra={"cls": "layer-differs-from-events"})
-            if Di is not DW and norm(Di) != norm(DW):
+            if Di is not DW and norm_ev(Di) != norm_ev(DW):
                 chk.fail(j.case(part), "ASSUMPTION: plain expat (deferral off) reports %s for this partition, %s for the reference" % (Di[:300], DW[:300]),
                          extra={"cls": "assumption-expat-partition"})
             if Li is W:
